@@ -53,7 +53,8 @@ fn run_doc(o: &mut Outcome, case: &Value) {
         if fp["inline"].as_bool().unwrap() { text.push_str(&format!(" inline text {}\n", k + 1)); }
     }
     let sl = case["sl"].as_array().unwrap();
-    for (n, name) in sl.iter().enumerate() { text.push_str(&format!("\nLicense: {}\n S{} text\n", lname(name), n + 1)); }
+    // (every other stand-alone paragraph has another field in front of its License field)
+    for (n, name) in sl.iter().enumerate() { if n % 2 == 0 { text.push_str(&format!("\nComment: about licence {}\nLicense: {}\n S{} text\n", n + 1, lname(name), n + 1)); } else { text.push_str(&format!("\nLicense: {}\n S{} text\n", lname(name), n + 1)); } }
     feats.sort(); feats.dedup();
     let ll = match guarded("lossless::Copyright::from_str", || debian_copyright::lossless::Copyright::from_str(&text)) {
         Ok(Ok(c)) => Some(c), Ok(Err(e)) => { o.v("C17", "lookup", "lossless::Copyright::from_str", "mismatch", &feats, &text, format!("rejected: {}", e)); None } Err(m) => { o.v("C17", "lookup", "lossless::Copyright::from_str", "panic", &feats, &text, m); None } };
